@@ -79,6 +79,28 @@ def kernel_summary(ev, rename):
     return out
 
 
+def search_summary(ev, rename):
+    """canonical strings of what decides the loop-carried scalars the recurrences read (the degree s found by a search loop with break, the
+    coefficient word a, the table row m): their assignments and the breaks, with the loops and conditions they sit under."""
+    out = []
+    skip = {"idx", "seed"}
+    for e in ev.events:
+        if e.kind == "break" or (e.kind == "assign" and e.name not in skip and not e.name.startswith("pts") and not e.name.endswith("_arr")
+                                 and e.value is not None and "pts" not in e.value.key()
+                                 and not (e.value.as_atom() and e.value.as_atom()[0] == "obj")):
+            sub = dict(rename)
+            for d, l in enumerate(e.loops):
+                if l.index is not None:
+                    sub[l.index.as_atom()] = P.atom(("role", f"v{d}"))
+            loops = [f"v{d} in [{l.lo.subs(sub)}, {l.hi.subs(sub)})" if l.kind == "range" else (f"while {l.iter.subs(sub)}" if l.kind == "while" else l.kind)
+                     for d, l in enumerate(e.loops)]
+            asserts = {x.value.key() for x in ev.events if x.kind == "assert"}
+            g = sorted(f"{'' if p else 'not '}{c.subs(sub)}" for c, p in e.guards if c.key() not in asserts)
+            what = "break" if e.kind == "break" else f"{e.name} = {e.value.subs(sub)}"
+            out.append(f"{what} | {'; '.join(loops)} | {' & '.join(g)}")
+    return out
+
+
 def strip_objs(s: str) -> str:
     import re
     s = re.sub(r"<(\w+)@\d+>", r"\1", s)
@@ -98,10 +120,26 @@ def r20_1(chk, sb, ld):
         chk.ob("R20.1", SB, "quasirandom_sobol_batch", f"recurrence step {i} is identical in the single and the batch kernel (N -> end)", x == y,
                fingerprint=f"step:{i}", expected=x[:300], found=y[:300])
     chk.ob("R20.1", SB, "quasirandom_sobol_batch", "both kernels have the same number of recurrence steps", len(a) == len(b), found=f"{len(a)} vs {len(b)}")
+    # ... and what the recurrences read is found the same way in both: the degree search (range, test, break), the coefficient word, the table row
+    sa_ = [strip_objs(x) for x in search_summary(s1, {("name", "N"): P.name("END")})]
+    sb_ = [strip_objs(x) for x in search_summary(s2, {("name", "end"): P.name("END")})]
+    only1 = [x for x in sa_ if x not in sb_]
+    only2 = [x for x in sb_ if x not in sa_]
+    chk.ob("R20.1", SB, "quasirandom_sobol_batch", "the scalars the recurrences read (degree search with its break, coefficient word, table row, bit scan) are "
+           "computed identically in the single and the batch kernel", not only1 and not only2 and len(sa_) >= 6, fingerprint="search-steps",
+           expected="the same assignments and breaks under the same loops and conditions", found=(only1[:1] + only2[:1]) or f"{len(sa_)} steps")
     # outputs
     outs1 = [e for e in s1.events if e.kind == "store" and "pts_view" in e.target.key()]
     outs2 = [e for e in s2.events if e.kind == "store" and "pts_view" in e.target.key()]
     chk.need(len(outs1) == 2 and len(outs2) == 2, "Sobol kernels: output stores not found")
+    # coordinate 0 is written outside the loop over the dimensions, coordinate j inside it (last index of the output)
+    for e in outs1 + outs2:
+        col = e.target.as_atom()[2][-1]
+        jl = [l for l in e.loops if l.kind == "range" and l.hi is not None and l.hi.key() == "D"]
+        okcol = (col == jl[0].index) if jl else (col == P.const(0))
+        chk.ob("R20.1", SB, "quasirandom_sobol" if e in outs1 else "quasirandom_sobol_batch", "the value computed for dimension j is stored as coordinate j "
+               "(coordinate 0 before the loop over the other dimensions)", okcol, node=e.node, fingerprint=f"out-column:{'single' if e in outs1 else 'batch'}:{bool(jl)}",
+               found=str(e.target)[:80])
     for e in outs1:
         x = find_atoms(e.value, lambda t: t[0] == "sub" and t[1].as_atom() and t[1].as_atom()[0] in ("obj", "name") and t[1].as_atom()[1] == "X")
         ok = len(x) == 1 and x[0][2][0] == P.name("N") - 1
